@@ -1,6 +1,7 @@
 package frame
 
 import (
+	"bufio"
 	"io"
 
 	"github.com/bluenviron/gomavlib/v3/pkg/message"
@@ -131,4 +132,81 @@ func verifHarness_C01_v1_refuse(n int) {
 	verifAssert(err != nil, "C01/refuse/error")
 	verifAssert(verifAnd(rec.calls == 0, len(rec.buf) == 0), "C01/refuse/nothing-emitted")
 	verifReach("C01/refuse")
+}
+
+// C01: the reader is configured through BufByteReader with a caller-supplied bufio.Reader of the smallest size
+// bufio allows (16 bytes): a written v2 frame, signed or not, is still read back field for field, whatever its
+// payload length.
+func verifHarness_C01_v2_smallbuf(n int, signed int) {
+	compat, seq, sys, comp := verifNondetU8(), verifNondetU8(), verifNondetU8(), verifNondetU8()
+	id := verifNondetU32()
+	verifAssume(id < 1<<24)
+	ck := verifNondetU16()
+	payload := verifNondetBytes(n)
+	orig := make([]byte, n)
+	copy(orig, payload)
+	fr := &V2Frame{IncompatibilityFlag: byte(signed), CompatibilityFlag: compat, SequenceNumber: seq, SystemID: sys,
+		ComponentID: comp, Checksum: ck, Message: &message.MessageRaw{ID: id, Payload: payload}}
+	var link byte
+	var ts uint64
+	var sigb []byte
+	if signed == 1 {
+		link = verifNondetU8()
+		ts = verifNondetU64()
+		verifAssume(ts < 1<<48)
+		sigb = verifNondetBytes(6)
+		sig := new(V2Signature)
+		copy(sig[:], sigb)
+		fr.SignatureLinkID = link
+		fr.SignatureTimestamp = ts
+		fr.Signature = sig
+	}
+	rec := &verifRecWriter{}
+	w := &Writer{ByteWriter: rec}
+	verifAssert(w.Initialize() == nil, "C01/v2s/writer-init")
+	verifAssert(w.Write(fr) == nil, "C01/v2s/write-ok")
+	rd := &Reader{BufByteReader: bufio.NewReaderSize(&verifChunkReader{data: rec.buf}, 16)}
+	verifAssert(rd.Initialize() == nil, "C01/v2s/reader-init")
+	got, err := rd.Read()
+	verifAssert(err == nil, "C01/v2s/read-ok")
+	g, ok := got.(*V2Frame)
+	verifAssert(ok, "C01/v2s/read-type")
+	verifAssert(verifAnd(g.CompatibilityFlag == compat, verifAnd(g.SequenceNumber == seq, verifAnd(g.SystemID == sys, g.ComponentID == comp))), "C01/v2s/header-fields")
+	verifAssert(g.Checksum == ck, "C01/v2s/checksum-field")
+	raw := verifRawOf(g.Message)
+	verifAssert(raw != nil && raw.ID == id, "C01/v2s/id")
+	verifAssert(verifEqBytes(raw.Payload, orig), "C01/v2s/payload")
+	if signed == 1 {
+		verifAssert(g.Signature != nil, "C01/v2s/signature-present")
+		verifAssert(verifAnd(g.SignatureLinkID == link, g.SignatureTimestamp == ts), "C01/v2s/link-ts")
+		verifAssert(verifEqBytes(g.Signature[:], sigb), "C01/v2s/signature")
+	}
+	verifReach("C01/v2s")
+}
+
+// C01: the same for a v1 frame.
+func verifHarness_C01_v1_smallbuf(n int) {
+	seq, sys, comp, id := verifNondetU8(), verifNondetU8(), verifNondetU8(), verifNondetU8()
+	ck := verifNondetU16()
+	payload := verifNondetBytes(n)
+	orig := make([]byte, n)
+	copy(orig, payload)
+	fr := &V1Frame{SequenceNumber: seq, SystemID: sys, ComponentID: comp, Checksum: ck,
+		Message: &message.MessageRaw{ID: uint32(id), Payload: payload}}
+	rec := &verifRecWriter{}
+	w := &Writer{ByteWriter: rec}
+	verifAssert(w.Initialize() == nil, "C01/v1s/writer-init")
+	verifAssert(w.Write(fr) == nil, "C01/v1s/write-ok")
+	rd := &Reader{BufByteReader: bufio.NewReaderSize(&verifChunkReader{data: rec.buf}, 16)}
+	verifAssert(rd.Initialize() == nil, "C01/v1s/reader-init")
+	got, err := rd.Read()
+	verifAssert(err == nil, "C01/v1s/read-ok")
+	g, ok := got.(*V1Frame)
+	verifAssert(ok, "C01/v1s/read-type")
+	verifAssert(verifAnd(g.SequenceNumber == seq, verifAnd(g.SystemID == sys, g.ComponentID == comp)), "C01/v1s/header-fields")
+	verifAssert(g.Checksum == ck, "C01/v1s/checksum-field")
+	raw := verifRawOf(g.Message)
+	verifAssert(raw != nil && raw.ID == uint32(id), "C01/v1s/id")
+	verifAssert(verifEqBytes(raw.Payload, orig), "C01/v1s/payload")
+	verifReach("C01/v1s")
 }
